@@ -125,6 +125,7 @@ type mkConfig struct {
 	NoWLog    bool   `json:"no_wlog"`
 	HashEvery bool   `json:"hash_every"` // NoPersist commit after every base-level op
 	RootType  string `json:"root_type"`
+	ContReads bool   `json:"-"` // a wrong read answer does not end the run (C02: the roots that follow are judged)
 }
 
 func (c mkConfig) String() string {
@@ -145,6 +146,9 @@ func mkConfigs(set string) []mkConfig {
 				mkConfig{Backend: be, CapClass: "ample", HashEvery: true, RootType: "state"},
 				mkConfig{Backend: be, CapClass: "tight", NoWLog: true, RootType: rt},
 			)
+		}
+		for i := range out {
+			out[i].ContReads = true
 		}
 	case "c03":
 		out = append(out, mkConfig{Backend: "mem", CapClass: "ample", RootType: "state"})
@@ -541,6 +545,7 @@ func runBehaviour(b *mkBehaviour, cfg mkConfig, salt int, rec *mkRecorder) (res 
 	}
 	r.tree = mkvs.New(nil, r.ndb, r.rootType(), r.opts()...)
 	defer r.close()
+	var firstRead *mkMismatch
 	for i := range b.Ops {
 		op := &b.Ops[i]
 		nops++
@@ -558,10 +563,20 @@ func runBehaviour(b *mkBehaviour, cfg mkConfig, salt int, rec *mkRecorder) (res 
 			for j := 0; j <= i; j++ {
 				emb = emb || hasEmbeddedLeaf(b.Ops[j].Shape)
 			}
-			return &mkMismatch{Config: cfg, Step: i, Op: op.A, Fail: f, CapN: r.capN, EmbLeaf: emb, Depth: maxDep, OpsLite: liteOps(b.Ops[:i+1])}, nops
+			m := &mkMismatch{Config: cfg, Step: i, Op: op.A, Fail: f, CapN: r.capN, EmbLeaf: emb, Depth: maxDep, OpsLite: liteOps(b.Ops[:i+1])}
+			// Under the root-comparing configurations (C02) a wrong read answer does not end the run: the roots of the
+			// following operations are what the property speaks about, and a defect that loses a pair on read-back shows in
+			// both.  The first read mismatch is reported only if no root differs later.
+			if cfg.ContReads && (f.Kind == "get" || f.Kind == "iter" || f.Kind == "remx") {
+				if firstRead == nil {
+					firstRead = m
+				}
+				continue
+			}
+			return m, nops
 		}
 	}
-	return nil, nops
+	return firstRead, nops
 }
 
 func hasEmbeddedLeaf(s *mkShape) bool {
